@@ -130,7 +130,30 @@ def shard_graphs(arg):
     return rep
 
 
+def shard_named(arg):
+    """named textbook states in uniform frames: cost and depth must be those of their class"""
+    n, part, parts, seed, deadline = arg
+    from gen import named
+    rep = fw.Report()
+    for i, (label, gid, w, gens, circ) in enumerate(named.named_subjects(n)):
+        if i % parts != part:
+            continue
+        for name in sweep.configs(n):
+            case = {"n": n, "connectivity": name, "strings": sweep.strings(gens, n), "format": "strings+sign", "circuit": circ if i % 2 == 0 else None}
+            fails, results = check_member(case)
+            canon = pauli.canonical_group(gens, n)
+            for res in results:
+                api, c, d = res[:3]
+                rep.case((n, name, canon, api, "named") if c >= 1 else None, None)
+                rep.count("circuits_per_api", api + "(named state)")
+            for key, msg, extra in fails:
+                rep.fail(key, case, msg + f" [named state {label}]", **extra)
+    return rep
+
+
 def shard_any(arg):
+    if arg[0] == "named":
+        return shard_named(arg[1:])
     if arg[0] == "graphs":
         return shard_graphs(arg[1:])
     return shard(arg)
@@ -143,6 +166,10 @@ def run(ctx):
         N = 1 << (n * (n - 1) // 2)
         for chunk in fw.split(list(range(N)), 1 if n < 5 else 16):
             args.append(("graphs", n, chunk, ctx.seed, ctx.deadline))
+    for n in range(2, 7):
+        parts = {2: 1, 3: 1, 4: 2, 5: 6, 6: 16}[n]
+        for part in range(parts):
+            args.append(("named", n, part, parts, ctx.seed, ctx.deadline))
     rng = fw.rng_for("c04g6", ctx.seed)
     for chunk in fw.split(sorted(rng.sample(range(1 << 15), 320 if q else 12000)), 16):
         args.append(("graphs", 6, chunk, ctx.seed, ctx.deadline))
@@ -151,7 +178,7 @@ def run(ctx):
         k = (3 if n <= 5 else 1) if q else (20 if n <= 5 else 10)
         for chunk in fw.split(reps, {2: 1, 3: 1, 4: 2, 5: 12, 6: 96}[n]):
             args.append((n, chunk, k, ctx.seed, ctx.deadline))
-    args.sort(key=lambda a: -(a[1] if a[0] == "graphs" else a[0]))
+    args.sort(key=lambda a: -(a[1] if a[0] in ("graphs", "named") else a[0]))
     rep = fw.run_shards(ctx, "props.c04", "shard_any", args)
     rep.extra["exhaustive"] = False
     rep.extra["exhaustive_part"] = "every (configuration, class) pair is visited with at least one member in every run; members are sampled"
